@@ -47,4 +47,6 @@ class Monitors(ApplyMonitors, WireMonitors, MapMonitors, MiscMonitors, MonBase):
         return "noprobe"
 
     def on_finish(self):
-        pass
+        if "C10" in self.on:
+            self.c10_tick = -1
+            self.c10_check({"k": "finish", "id": -1})
